@@ -79,6 +79,27 @@ def run(ctx):
             bsel = [BACKENDS[0], other] if not (ctx.thorough and i % 10 == 0) else list(BACKENDS)
             if jax_pass:
                 bsel = [BACKENDS[0]] + JAX
+            # ---- "batched or not": a batched model on distinct rows against the formula, row by row (numpy)
+            if i % 4 == 0 and clip_s is None and clip_b is None:
+                N = rng.randint(2, 4)
+                rows = [gen_spec.gen_pars(rng, cfg['init'], cfg['bounds'], cfg['par_names']) for _ in range(N)]
+                errb, mb = enga.impl_model(pyhf, spec, enga.impl_kwargs(histo, norm), batch_size=N)
+                if mb is None:
+                    ctx.fail('C01/batched-rejected', 'batched construction of a well-formed spec failed', {'spec': spec, 'batch_size': N}, errb)
+                else:
+                    actb = np.asarray(mb.expected_actualdata(np.asarray(rows)), dtype=float)
+                    _, resb = enga.model_call(lean, spec, st, [{'q': 'expected_batch', 'rows': fl(rows)}])
+                    ctx.count(N)
+                    for t in range(N):
+                        inpb = {'spec': spec, 'batch_size': N, 'rows': rows, 'row': t, 'settings': st}
+                        mrow = np.asarray(unfl(resb[0][t]['actual']))
+                        if actb[t].shape != mrow.shape or not np.allclose(actb[t], mrow, rtol=1e-11, atol=1e-11):
+                            ctx.disagree('batched.expected_actualdata', inpb, mrow.tolist(), actb[t].tolist())
+                        ref, _ = enga.reference_expected(pyhf, spec, m.config, np.asarray(rows[t]), histo, norm)
+                        refv = np.concatenate([ref[cn] for cn in m.config.channels])
+                        if not np.allclose(actb[t], refv, rtol=1e-9, atol=1e-9):
+                            ctx.fail('C01/formula-batched', 'a row of the batched expected_actualdata differs from the HistFactory rate formula', inpb, actb[t].tolist(), refv.tolist())
+                    del mb
             cases.append(dict(i=i, spec=spec, info=info, histo=histo, norm=norm, clip_s=clip_s, clip_b=clip_b, st=st, m=m, pts=pts, res=res, bsel=bsel))
             if i < 2:
                 ctx.sample({'spec': spec, 'settings': st, 'pars': pts[0], 'expected_actualdata_model': unfl(res[1]['actual'])})
